@@ -131,6 +131,51 @@ def parse_constants(text):
     return {"progress_text": "data fetched. waiting for render process..", "sep_regex": rex[0]}
 
 
+def qinfo_sites(text):
+    """The queue reads of do_render_status as the source has them: the list of job-id expressions passed to
+    self.qserve.qinfo(jobid=...) in source order, each resolved to the f-string it denotes (a Name is resolved to the
+    most recent assignment of that name before the call).  The models (Model.status: two snapshots; ModelReq.status_req:
+    render job, then at most the fetch job) are models of a command with exactly these two read sites."""
+    tree = ast.parse(text)
+    fn = None
+    for node in ast.walk(tree):
+        if isinstance(node, ast.FunctionDef) and node.name == "do_render_status":
+            fn = node
+    if fn is None:
+        raise Shape("function do_render_status not found in nserve.py")
+
+    def fstr(n):
+        if isinstance(n, ast.JoinedStr):
+            parts = []
+            for v in n.values:
+                if isinstance(v, ast.Constant):
+                    parts.append(v.value)
+                elif isinstance(v, ast.FormattedValue) and isinstance(v.value, ast.Name):
+                    parts.append("{%s}" % v.value.id)
+                else:
+                    parts.append("{?}")
+            return "".join(parts)
+        return None
+    assigns = []      # (lineno, name, f-string)
+    for n in ast.walk(fn):
+        if isinstance(n, ast.Assign) and len(n.targets) == 1 and isinstance(n.targets[0], ast.Name) and fstr(n.value) is not None:
+            assigns.append((n.lineno, n.targets[0].id, fstr(n.value)))
+    sites = []
+    for n in ast.walk(fn):
+        if isinstance(n, ast.Call) and isinstance(n.func, ast.Attribute) and n.func.attr == "qinfo":
+            args = [k.value for k in n.keywords if k.arg == "jobid"] + list(n.args)
+            if len(args) != 1:
+                raise Shape("do_render_status: qinfo call with unexpected arguments at line %d" % n.lineno)
+            a = args[0]
+            if isinstance(a, ast.Name):
+                prev = [x for x in assigns if x[1] == a.id and x[0] <= n.lineno]
+                val = max(prev)[2] if prev else "<%s>" % a.id
+            else:
+                val = fstr(a) or "<expr>"
+            sites.append((n.lineno, val))
+    return [v for _, v in sorted(sites)]
+
+
 def render(writers, consts):
     def lit(s):
         return core.coq_str(s)
